@@ -24,6 +24,7 @@ static void c01_mutate_and_send(Buf *last, int started) {
     c01_send(m.p, (uint32_t)m.n, started);
     b_free(&m);
 }
+static void c04_policy_rounds(Buf *b, int rounds);
 static void scen_c01(int histories, int prefix, int stream) {
     Buf b = {0}, last = {0}; World w; memset(&w, 0, sizeof w);
     for (int h = 0; h < histories; h++) {
@@ -36,6 +37,9 @@ static void scen_c01(int histories, int prefix, int stream) {
             started = 1;
         }
         tpm2_startup(&b, 0);
+        if (h % 2 == 0) {   /* authorized histories (HMAC-protected policy sessions, a command that deletes the entity authorizing it) */
+            g_trace_x = 1; c04_policy_rounds(&b, 40); g_trace_x = 0;
+        }
         for (int i = 0; i < prefix; i++) gen_op(&w, &b);
         for (int i = 0; i < stream; i++) {
             g_locality = chance(70) ? 0 : rnd(5);
